@@ -50,6 +50,8 @@ def gen_config(rng, escape=None, kicks=None, ntout=None, cls=None):
         cfg["BH_ret_dyn"] = rng.choice([0.05, 0.3])
     elif rng.random() < 0.4:
         cfg["BH_ret_dyn"] = rng.choice([0.0, 0.2, 0.7, 0.95])
+    if rng.random() < 0.35:
+        cfg["imf_ext"] = rng.choice(["extrapolate", "extrapolate", "zeros", "raise"])
     if cfg["cls"] == "EvolvedMFWithBH":
         cfg.pop("BH_ret_dyn", None)
         cfg["f_BH"] = [rng.choice([0.0, 1e-4, 1e-3]) for _ in tout]
@@ -60,13 +62,21 @@ def gen_config(rng, escape=None, kicks=None, ntout=None, cls=None):
 def build(cfg, ode_override=None):
     sys.path.insert(0, C.REPO)
     import ssptools.evolve_mf as emf
-    kw = {k: v for k, v in cfg.items() if k not in ("cls", "want_ifmr_grid")}
+    kw = {k: v for k, v in cfg.items() if k not in ("cls", "want_ifmr_grid", "imf_ext")}
     if len(kw["tout"]) == 1 and "f_BH" in kw:
         kw["f_BH"] = kw["f_BH"][0]
     old = emf.ode
     if ode_override is not None:
         emf.ode = ode_override
     try:
+        if cfg.get("imf_ext") is not None:
+            # the primary constructor, with an IMF object the user built (any out-of-range mode; the IMF's own N0 is unrelated)
+            from ssptools.masses import PowerLawIMF
+            imf = PowerLawIMF(kw.pop("m_breaks"), kw.pop("a_slopes"), N0=1234.5, ext=cfg["imf_ext"])
+            pos = [imf, kw.pop("nbins"), kw.pop("FeH"), kw.pop("tout"), kw.pop("esc_rate")]
+            if "f_BH" in kw:
+                pos.append(kw.pop("f_BH"))
+            return getattr(emf, cfg["cls"])(*pos, **kw)
         return getattr(emf, cfg["cls"]).from_powerlaw(**kw)
     finally:
         emf.ode = old
